@@ -422,4 +422,14 @@ def _regress_entry(arg):
 
 
 if __name__ == "__main__":
-    sys.exit(main())
+    try:
+        rc = main()
+        sys.stdout.flush()
+    except BrokenPipeError:
+        # the reader of our stdout went away (e.g. `| head`): the verdict is in the exit status
+        try:
+            sys.stdout = open(os.devnull, "w")
+        except Exception:  # noqa: BLE001
+            pass
+        rc = 0
+    sys.exit(rc)
